@@ -29,8 +29,8 @@ def decomposition_structure(ctx, rep, rule: str) -> None:
     fi = repo.func("matrix_functions:matrix_eigenvalue_decomposition")
     m = fi.module
     eigh = [c for c in A.calls(fi.node, nested=True) if A.callee_name(repo, m, c) == "torch.linalg.eigh"]
-    args = sorted(_norm(c.args[0]) for c in eigh if c.args)
-    ok = args == ["A", "A.double()"] and all(len(c.args) == 1 and not c.keywords for c in eigh)
+    args = sorted(A.tnorm(c.args[0]) for c in eigh if c.args)  # tensor-normal text: A.double() is A.to(dtype=torch.float64)
+    ok = args == ["A", "A.to(dtype=torch.float64)"] and all(len(c.args) == 1 and not c.keywords for c in eigh)
     rep.ob(rule, "eigh-of-the-given-matrix", ok, fi.loc(), f"torch.linalg.eigh is applied to {args}: the matrix itself (and its double-precision copy on retry), nothing else", sample=True)
     # both outputs are bound together from the same call and returned in (eigenvalues, eigenvectors) order
     binds = [n for n in ast.walk(fi.node) if isinstance(n, ast.Assign) and isinstance(n.value, ast.Call) and n.value in eigh]
